@@ -26,6 +26,7 @@ RULE = ("(a) plan stream: POD GAC/LAC files whose tie-point latitude encodes the
         "that follows an out-of-order clock reset), read with the shipped table: time shift and placement vs the row's own "
         "linear interpolation (times where two rows overlap are skipped). A case = one pass; "
         "non-trivial = non-zero error or a gap; distinct by (format, line numbers, error profile)")
+RULE += (" In the thorough tier, and in the quick tier whenever the source differs from the validated baseline, a LONG-PASS stream is added (passes of 1300 .. 12000 lines, just beyond multiples of 256 .. 8192, with the property-relevant event placed at and after such multiples; DESIGN 10.4 round 13).")
 TRUSTED_EXTRA = ["pyorbital (SGP4, scan geometry) is an external parameter: the 0.02 deg agreement is numerical support",
                  "libm trigonometry of the great-circle interpolation is compared numerically"]
 
